@@ -92,8 +92,8 @@ Record request := { q_org : Z; q_rx : Z; q_tx : Z }.
 Record reply := { r_org : Z; r_rx : Z; r_tx : Z; r_inter : bool; r_ref : Z }.
 
 (* the three-way decision for a client that has no item *)
-Inductive admit := Evict | Stateless | Insert.
-Definition admit_decision (c : config) (size : nat) (qmin : option Z) (rx64 : Z) : admit :=
+Inductive admission := Evict | Stateless | Insert.
+Definition admission_decision (c : config) (size : nat) (qmin : option Z) (rx64 : Z) : admission :=
   if Z.of_nat size =? cap c then
     match qmin with
     | Some m => if negb (rx64 <? m) then Evict else Stateless   (* !qmin.After(rx64) *)
@@ -138,7 +138,7 @@ Definition handle (c : config) (s : tss) (cid : Z) (q : request) (rxt now victim
   | None =>
       let rx64 := to64 rxt in let tx64 := to64 txt0 in
       let rep := {| r_org := q_tx q; r_rx := rx64; r_tx := tx64; r_inter := false; r_ref := tx64 |} in
-      match admit_decision c (length (items s)) (hq_min_val (hq s)) rx64 with
+      match admission_decision c (length (items s)) (hq_min_val (hq s)) rx64 with
       | Stateless =>
           Some {| o_state := s; o_reply := rep; o_rxt := rxt; o_txt := txt0; o_evicted := None; o_stateless := true |}
       | Insert =>
